@@ -6,7 +6,8 @@ from verifkit import gen, wiregen as W, disp
 ID = "C19"
 THM_MODULES = ["Minicbor.Thm.C19"]
 P = "Minicbor.C19."
-REQUIRED = [P + n for n in """display_total display_examples""".split()]
+REQUIRED = [P + n for n in """display_total display_ne_none display_bounded display_bounded_exists display_error_inline
+    display_documented_seq display_documented display_examples""".split()]
 PACKAGES = ["hcore"]
 K, K0 = 16, 256
 TREES = {}
